@@ -568,7 +568,7 @@ theorem getNextToken_spec (derom : Bool) (s0 : ALS) : TokSpec s0 (getNextToken d
 
 def LineSpec (s : ALS) (acc : List AToken) : LRes (List AToken) → Prop
   | .ok res => ∃ new, res = acc ++ new ∧ (∀ t ∈ new, s.pos ≤ t.start ∧ t.start < t.stop ∧ t.stop ≤ s.total + 1 ∧ ATokX t) ∧
-      ∃ t, new.getLast? = some t ∧ t.kind = .eol
+      (∃ t, new.getLast? = some t ∧ t.kind = .eol) ∧ new.Pairwise (fun a b => a.stop ≤ b.start)
   | .err e => s.pos ≤ e.start ∧ e.start ≤ e.stop ∧ e.stop ≤ s.total + 1
   | .panic _ => False
   | .outOfFuel _ => False
@@ -589,7 +589,7 @@ theorem lineLoop_spec (derom : Bool) : ∀ (fuel : Nat) (s : ALS) (acc : List AT
       by_cases hk : t.kind = .eol
       · rw [if_pos hk]
         obtain ⟨e1, e2⟩ := h4 hk
-        refine ⟨[t], rfl, fun t' ht' => ?_, t, rfl, hk⟩
+        refine ⟨[t], rfl, fun t' ht' => ?_, ⟨t, rfl, hk⟩, List.pairwise_singleton _ _⟩
         simp only [List.mem_singleton] at ht'; subst ht'; exact ⟨by omega, by omega, by omega, h6⟩
       · rw [if_neg hk]
         obtain ⟨e1, e2⟩ := h5 hk
@@ -597,14 +597,16 @@ theorem lineLoop_spec (derom : Bool) : ∀ (fuel : Nat) (s : ALS) (acc : List AT
         have hle : s'.pos ≤ s'.total := pos_le_total _
         match hr : lineLoop derom n s' (acc ++ [t]), hrec with
         | .ok res, hrec =>
-          obtain ⟨new, hres, hw, tl, hl1, hl2⟩ := hrec
-          refine ⟨t :: new, by rw [hres]; simp, fun t' ht' => ?_, tl, ?_, hl2⟩
+          obtain ⟨new, hres, hw, ⟨tl, hl1, hl2⟩, hpw⟩ := hrec
+          refine ⟨t :: new, by rw [hres]; simp, fun t' ht' => ?_, ⟨tl, ?_, hl2⟩, ?_⟩
           · rcases List.mem_cons.mp ht' with rfl | hm
             · exact ⟨h1, h2, by omega, h6⟩
             · have := hw t' hm; exact ⟨by omega, by omega, by omega, this.2.2.2⟩
           · cases new with
             | nil => simp at hl1
             | cons a b => simpa using hl1
+          · refine List.pairwise_cons.mpr ⟨fun b hb => ?_, hpw⟩
+            have := hw b hb; omega
         | .err e, hrec =>
           simp only [LineSpec] at hrec ⊢
           omega
